@@ -693,7 +693,15 @@ func (f *FeaturesByID) findPathsByPoint(id b6.FeatureID, paths []b6.FeatureID) [
 			}
 		}
 	}
-	return paths
+	// A path that passes through the point more than once is recorded once
+	// per visit: report it once.
+	unique := paths[0:0]
+	for _, path := range paths {
+		if !slices.Contains(unique, path) {
+			unique = append(unique, path)
+		}
+	}
+	return unique
 }
 
 func (f *FeaturesByID) FindAreasByPoint(id b6.FeatureID) b6.AreaFeatures {
@@ -832,11 +840,11 @@ func (f *FeaturesByID) isGraphNode(point Reference) bool {
 					if hasTagsBesidesGeometry(p.Tags, fb.Strings) {
 						return true
 					}
-					paths += len(p.Paths)
+					paths += countDistinct(p.Paths)
 				case PointTagReferencesOnly:
 					var r PointReferences
 					r.Unmarshal(&fb.Namespaces, t.Data)
-					paths += len(r.Paths)
+					paths += countDistinct(r.Paths)
 				}
 				if paths > 1 {
 					return true
@@ -845,6 +853,19 @@ func (f *FeaturesByID) isGraphNode(point Reference) bool {
 		}
 	}
 	return false
+}
+
+// countDistinct returns the number of distinct references in r. A path that
+// passes through a point more than once is listed once per visit, but is still
+// only one path.
+func countDistinct(r References) int {
+	n := 0
+	for i := range r {
+		if !slices.Contains(r[:i], r[i]) {
+			n++
+		}
+	}
+	return n
 }
 
 // hasTagsBesidesGeometry returns true if a point has a tag other than the
